@@ -454,6 +454,28 @@ def run(ctx):
     run.rule(R7, "the only records a refresh drops on age are unconfirmed coinbase candidates", floor=2)
     co = ctx.fn(UPD + "clean_old_unconfirmed")
     if co:
+        # the age-based clean-up is wallet-wide while outputs are confirmed per account: a candidate of an account that
+        # has not refreshed is dropped although it was mined, and what brings it back is the look-back scan of the same
+        # refresh - whose reach (blocks before the last scanned height) must not be shorter than the clean-up age
+        uws7 = ctx.fn(c.LW + "api_impl::owner::update_wallet_state")
+        ages = set()
+        for bb in co.bbs:
+            for st in bb["s"]:
+                if st["k"] == "a" and st["r"]["k"] == "bin" and st["r"]["op"].startswith("Sub"):
+                    kv = vf.const_of_operand(co, st["r"]["r"])
+                    if kv is not None and kv.isdigit() and int(kv) > 1:
+                        ages.add(int(kv))
+        reach_ = set()
+        if uws7:
+            for b, t in uws7.calls():
+                if (t.get("f") or "").endswith("::saturating_sub") and vf.has_call(vf.origins(uws7, t["a"][0]), c.WB + "last_scanned_block"):
+                    kv = vf.const_of_operand(uws7, t["a"][1])
+                    if kv is not None and kv.isdigit():
+                        reach_.add(int(kv))
+        h7 = len(ages) == 1 and len(reach_) == 1 and min(reach_) >= max(ages)
+        run.instance(R7, {"fn": "update_wallet_state / clean_old_unconfirmed", "obligation": "look-back of the refresh-time scan >= age at which unconfirmed coinbase candidates are dropped", "look-back": sorted(reach_), "clean-up age": sorted(ages)}, held=h7)
+        if not h7:
+            run.finding(Finding(R7, uws7.id if uws7 else co.id, "the refresh-time scan reaches back fewer blocks (%s) than the age at which mined-but-unrefreshed coinbase candidates of other accounts are dropped (%s): they are deleted and not restored" % (sorted(reach_), sorted(ages)), site=(uws7 or co).loc()))
         pushes = cfg.find_calls(co, "alloc::vec::Vec::<T, A>::push")
         dels = cfg.find_calls(co, c.WOB + "delete")
         held = len(pushes) == 1 and len(dels) == 1
